@@ -17,6 +17,7 @@ import os
 from fractions import Fraction
 
 from .. import translate
+from . import normalize
 from ..translate import Untranslatable
 
 
@@ -123,7 +124,7 @@ class Ctx:
 
 def _parse(repo, rel):
     with open(os.path.join(repo, rel)) as f:
-        return ast.parse(f.read())
+        return normalize.parse(f.read())
 
 
 def _assign(tree, name):
